@@ -6,10 +6,21 @@ vf/refs/rfc5849.py (validated at import against the worked examples of RFC 5849 
 §3.4.1.1 and OAuth Core 1.0 appendix A.5).  A mismatch is *named* by finding the smallest
 set of known deviation switches of the reference that reproduces tornado's output; each
 switch is its own mechanism key, an unexplained mismatch gets `signature/unexplained-mismatch`.
+
+Call histories (second case kind): several signature computations in ONE process, through the two
+functions and through OAuthMixin._oauth_request_parameters (1.0 and 1.0a), whose parameter sets are
+related to each other: the same names with other values, the same values under other names, exact
+repeats, and values that compare (and hash) equal but print differently (1 / True / 1.0 /
+Decimal("1.0"), 0 / False / 0.0 / -0.0, 10**16 / 1e16, n / float(n)) mixed with their string
+spellings.  Each signature must equal the RFC 5849 signature of ITS OWN parameters, a non-string
+value standing for the text tornado's own request helpers put on the wire for it
+(urllib.parse.urlencode: str(value)).
 """
 from __future__ import annotations
 
 import itertools
+import urllib.parse
+from decimal import Decimal
 
 from vf import core
 from vf.refs import rfc5849 as ref
@@ -29,7 +40,8 @@ META = {
 RULE = ("cases are (consumer secret, token secret or none, method, url, parameter dict of 0-8 entries); generated per "
         "character class for names and values; non-trivial if the parameter set is non-empty and at least one of: a "
         "name or value needs percent-encoding, host/scheme is mixed case, a port is present, a secret needs encoding; "
-        "distinct by the full case")
+        "distinct by the full case; call histories: 2-6 related calls in one process (functions and OAuthMixin), "
+        "non-trivial if a value compares equal to but prints differently from a value signed earlier")
 FLOORS = {"quick": 15000, "thorough": 400000}
 ASSUMPTIONS = [
     "vf/refs/rfc5849.py implements RFC 5849 §3.4 (validated against the RFC's worked examples)",
@@ -38,7 +50,8 @@ ASSUMPTIONS = [
 ]
 REQUIRED_COUNTERS = ["oracle_evals", "sig10_evals", "sig10a_evals", "class_name_needs_encoding",
                      "class_default_port", "class_secret_needs_encoding", "class_ipv6_literal_host",
-                     "class_ipv6_literal_host_with_port"]
+                     "class_ipv6_literal_host_with_port", "history_cases", "history_calls", "mixin_evals",
+                     "class_equal_value_printed_differently_earlier", "class_exact_repeat_of_earlier_call"]
 
 
 def _selfcheck():
@@ -187,16 +200,107 @@ def gen_case(rng, force=None):
             "url": gen_url(rng, port_cls, path_params), "params": sorted(params.items(), key=lambda kv: repr(kv))}
 
 
+# ---------------------------------------------------------------------------------------------
+# call histories
+
+# values that compare and hash equal but are sent (and must be signed) as different texts
+EQ_POOLS = [
+    [1, True, 1.0, Decimal("1"), Decimal("1.0"), Decimal("1.00")],
+    [0, False, 0.0, -0.0, Decimal("0"), Decimal("0.0"), Decimal("-0")],
+    [2, 2.0, Decimal("2.00")],
+    [-1, -1.0, Decimal("-1.0")],
+    [20, 20.0, Decimal("2E+1")],
+    [100, 100.0, Decimal("1E+2"), Decimal("100.0")],
+    [10 ** 16, 1e16, Decimal("1E+16")],
+    [2 ** 53, float(2 ** 53)],
+    [0.5, Decimal("0.5"), Decimal("0.50")],
+    [1.5, Decimal("1.5"), Decimal("1.500")],
+]
+HIST_NAMES = ["count", "page", "include_entities", "trim_user", "since_id", "exclude_replies", "status", "lat",
+              "long", "amount", "a b", "c@", "x[]", "caf\xe9", "flag", "n", "v", "1", "0", "True"]
+
+
+def wire_text(v):
+    """The text a parameter value stands for = what tornado's request helpers send for it (urlencode)."""
+    return v if isinstance(v, str) else str(v)
+
+
+def _selfcheck_wire_text():
+    for pool in EQ_POOLS:
+        for v in pool:
+            sent = urllib.parse.parse_qsl(urllib.parse.urlencode([("k", v)]), keep_blank_values=True)
+            assert sent == [("k", wire_text(v))], (v, sent)
+            assert v == pool[0] and hash(v) == hash(pool[0]), v
+        assert len({wire_text(v) for v in pool}) > 1, pool
+
+
+_selfcheck_wire_text()
+
+
+def gen_hvalue(rng, pools):
+    r = rng.random()
+    if r < 0.55:
+        v = rng.choice(rng.choice(pools))
+        if rng.random() < 0.15:
+            return wire_text(v)                       # the string spelling of such a value ("True", "1.0")
+        return v
+    if r < 0.65:
+        n = rng.choice([3, 7, 42, 200, -5, 1000, rng.randint(-10 ** 6, 10 ** 6)])
+        return rng.choice([n, float(n), str(n), Decimal(n), Decimal(str(float(n)))])
+    if r < 0.75:
+        return rng.choice([0.1, 2.5e-3, 1e-7, 1e22, 123456.789, -2.25, rng.random()])
+    return gen_value(rng)
+
+
+def gen_history(rng):
+    pools = rng.sample(EQ_POOLS, rng.choice([1, 1, 2, 3]))
+    names = rng.sample(HIST_NAMES, rng.randint(2, 6))
+    fixed_env = rng.random() < 0.6                     # one client signing many requests vs. unrelated requests
+    env = gen_case(rng)
+    calls = []
+    for _ in range(rng.randint(2, 6)):
+        r = rng.random()
+        if calls and r < 0.12:
+            call = dict(rng.choice(calls))             # exact repeat of an earlier call
+            call["via"] = rng.choice(["fn", "fn", "mixin10a", "mixin10"])
+            if call["token"] is None or any(k.startswith("oauth_") for k, _ in call["params"]):
+                call["via"] = "fn"     # the mixin adds its own oauth_* parameters; a clash is not what the statement pins
+            calls.append(call)
+            continue
+        params = {}
+        if calls and r < 0.3:
+            # same names as an earlier call, (mostly) other values
+            for k, v in rng.choice(calls)["params"]:
+                params[k] = v if rng.random() < 0.3 else gen_hvalue(rng, pools)
+        else:
+            for _ in range(rng.randint(1, 5)):
+                k = rng.choice(names) if rng.random() < 0.8 else gen_name(rng, rng.choice(["plain", "reserved", "nonascii"]))
+                params[k] = gen_hvalue(rng, pools)
+        if not fixed_env:
+            env = gen_case(rng)
+        via = rng.choice(["fn", "fn", "fn", "mixin10a", "mixin10"])
+        if env["token"] is None or any(k.startswith("oauth_") for k in params):
+            via = "fn"
+        plist = list(params.items())
+        rng.shuffle(plist)                             # dict order = order in which the values are first handled
+        calls.append({"consumer": env["consumer"], "token": env["token"], "method": env["method"] if rng.random() < 0.7
+                      else rng.choice(["GET", "POST"]), "url": env["url"], "params": plist, "via": via})
+    return {"history": calls}
+
+
 def shards(tier, seed):
     n = 32000 if tier == "quick" else 1000000
     k = 8 if tier == "quick" else 16
-    return [{"n": n // k, "j": j} for j in range(k)]
+    out = [{"n": n // k, "j": j} for j in range(k)]
+    hn, hk = (2400, 2) if tier == "quick" else (32000, 4)
+    out += [{"kind": "hist", "n": hn // hk, "j": 100 + j} for j in range(hk)]
+    return out
 
 
 def gen_cases(spec):
     rng = core.rng_for(spec["seed"], PROP, spec["j"])
     for _ in range(spec["n"]):
-        yield gen_case(rng)
+        yield gen_history(rng) if spec.get("kind") == "hist" else gen_case(rng)
 
 
 def directed_cases():
@@ -213,6 +317,15 @@ def directed_cases():
     yield dict(base, url="HTTP://[::80]/r")
     yield dict(base, url="http://[2001:db8::443]:80/r")
     yield dict(base, consumer="se&cr=et", token="to ken+")                            # secrets need encoding
+    # one process signing several requests whose values compare equal but are different texts
+    tl = dict(base, url="https://API.example.com/1.1/statuses/home_timeline.json", via="fn")
+    yield {"history": [dict(tl, params=[("count", 1), ("screen_name", "tornadoweb")]),
+                       dict(tl, params=[("count", 20), ("include_entities", True)], via="mixin10a"),
+                       dict(tl, params=[("count", 1.0), ("trim_user", 1)]),
+                       dict(tl, params=[("page", 0), ("exclude_replies", False)], via="mixin10"),
+                       dict(tl, params=[("since_id", 0.0), ("contributor_details", True)]),
+                       dict(tl, params=[("count", "1"), ("include_rts", "True")])]}
+    yield {"history": [dict(tl, params=[("flag", True), ("count", 1), ("ratio", 1.0)])]}   # within one parameter set
 
 
 # ---------------------------------------------------------------------------------------------
@@ -232,6 +345,7 @@ WHAT = {
                           "port match the Host header field, RFC 3986 host = IP-literal incl. brackets)",
     "raw_key": "the OAuth 1.0 HMAC key uses the raw secrets instead of their percent-encoded form (RFC 5849 §3.4.2)",
 }
+HISTORY_MECH = "history/value-signed-as-the-text-of-an-equal-comparing-value-handled-earlier"
 
 
 def explain(got, method, url, params, consumer, token_secret, applicable):
@@ -243,13 +357,53 @@ def explain(got, method, url, params, consumer, token_secret, applicable):
     return None
 
 
-def run_case(case, ctx):
-    consumer, token, method, url = case["consumer"], case["token"], case["method"], case["url"]
-    params = dict((k, v) for k, v in case["params"])
-    str_params = [(k, str(v)) for k, v in params.items()]
+def explain_by_earlier_values(got, method, url, pairs, consumer, token_secret, earlier):
+    """pairs: [(name, value object or text)]. Does signing some values as the text of an equal-comparing object
+    handled earlier in this process reproduce tornado's output?  Only *names* the mechanism of a mismatch."""
+    options = []
+    for k, v in pairs:
+        alts = [wire_text(v)]
+        for o in earlier:
+            try:
+                if o == v and hash(o) == hash(v) and wire_text(o) not in alts:
+                    alts.append(wire_text(o))
+            except TypeError:
+                pass
+        options.append([(k, a) for a in alts])
+    n = 1
+    for o in options:
+        n *= len(o)
+    if n == 1 or n > 20000:
+        return None
+    for combo in itertools.product(*options):
+        if ref.hmac_sha1_signature(method, url, list(combo), consumer, token_secret) == got:
+            return [(k, a) for (k, a), (_, v) in zip(combo, pairs) if a != wire_text(v)]
+    return None
+
+
+class _Mixin10a(auth.OAuthMixin):
+    _OAUTH_VERSION = "1.0a"
+
+    def __init__(self, consumer_secret):
+        self._consumer = {"key": "ck", "secret": consumer_secret}
+
+    def _oauth_consumer_token(self):
+        return self._consumer
+
+
+class _Mixin10(_Mixin10a):
+    _OAUTH_VERSION = "1.0"
+
+
+def eval_call(call, ctx, earlier, history=None, index=None):
+    """Sign one request on the real code and judge every signature against the reference.
+    `earlier`: value objects this process' history has handled before this call (None outside histories)."""
+    consumer, token, method, url = call["consumer"], call["token"], call["method"], call["url"]
+    via = call.get("via", "fn")
+    params = dict((k, v) for k, v in call["params"])
     token_secret = token if token is not None else ""
     names_need = any(ref.enc(k) != k for k in params)
-    vals_need = any(ref.enc(str(v)) != str(v) for v in params.values())
+    vals_need = any(ref.enc(wire_text(v)) != wire_text(v) for v in params.values())
     m = ref._URL_RE.match(url)
     scheme, authority, path = m.group(1).lower(), m.group(2).lower(), m.group(3)
     default_port = (scheme == "http" and authority.endswith(":80")) or (scheme == "https" and authority.endswith(":443"))
@@ -273,30 +427,51 @@ def run_case(case, ctx):
         if has_port:
             ctx.count("class_ipv6_literal_host_with_port")
     nontrivial = bool(params) and (names_need or vals_need or mixed or has_port or secret_needs or ipv6)
-    new = ctx.mark(("c48", consumer, token, method, url, case["params"]), nontrivial)
-    if new and nontrivial and ctx.evaluations % 499 == 7:
-        ctx.sample(case)
 
     consumer_d = {"key": "ck", "secret": consumer}
     token_d = None if token is None else {"key": "tk", "secret": token}
-    want = ref.hmac_sha1_signature(method, url, str_params, consumer, token_secret)
     applicable = [s for s, on in (("raw_names", names_need), ("keep_default_port", default_port),
                                   ("drop_path_params", path_params), ("drop_ipv6_brackets", ipv6)) if on]
-    for fname, counter, extra in (("_oauth10a_signature", "sig10a_evals", []),
-                                  ("_oauth_signature", "sig10_evals", ["raw_key"] if secret_needs else [])):
-        f = getattr(auth, fname)
+    raw_key = ["raw_key"] if secret_needs else []
+    if via == "fn":
+        runs = [("_oauth10a_signature", "sig10a_evals", []), ("_oauth_signature", "sig10_evals", raw_key)]
+    else:
+        runs = [("OAuthMixin._oauth_request_parameters[%s]" % via[5:], "mixin_evals", raw_key if via == "mixin10" else [])]
+    for fname, counter, extra in runs:
         ctx.count(counter)
         ctx.count("oracle_evals")
+        pairs = list(params.items())
         try:
-            got = f(consumer_d, method, url, dict(params), token_d)
+            if via == "fn":
+                got = getattr(auth, fname)(consumer_d, method, url, dict(params), token_d)
+            else:
+                mixin = (_Mixin10a if via == "mixin10a" else _Mixin10)(consumer)
+                oauth = mixin._oauth_request_parameters(url, token_d, dict(params), method)
+                got = oauth.pop("oauth_signature").encode("ascii")
+                # what is sent and therefore signed: the returned oauth_* parameters plus the request's own
+                pairs = list(oauth.items()) + pairs
         except Exception as e:  # noqa: BLE001
-            ctx.violation(f"{fname}/raises-{type(e).__name__}", f"{fname} raised", {"case": case, "error": repr(e)})
+            ctx.violation(f"{fname}/raises-{type(e).__name__}", f"{fname} raised", {"case": history or call, "error": repr(e)})
             continue
+        str_params = [(k, wire_text(v)) for k, v in pairs]
+        want = ref.hmac_sha1_signature(method, url, str_params, consumer, token_secret)
         if got == want:
             continue
-        combo = explain(got, method, url, str_params, consumer, token_secret, applicable + extra)
-        wit = {"function": fname, "case": case, "tornado": got, "rfc5849": want,
+        wit = {"function": fname, "case": history or call, "tornado": got, "rfc5849": want,
                "rfc5849_base_string": ref.signature_base_string(method, url, str_params)}
+        if index is not None:
+            wit["call_index"] = index
+        if earlier is not None:
+            own = [v for _, v in pairs]
+            subst = explain_by_earlier_values(got, method, url, pairs, consumer, token_secret,
+                                              list(_PROCESS_SEEN.values()) + list(earlier) + own)
+            if subst is not None:
+                ctx.violation(HISTORY_MECH,
+                              f"{fname}: a parameter value was signed as the text of a different value that compares equal to it "
+                              "and was handled earlier in the same process; the signature is not the RFC 5849 signature of the "
+                              "parameters of this request", dict(wit, values_signed_as=subst))
+                continue
+        combo = explain(got, method, url, str_params, consumer, token_secret, applicable + extra)
         if combo is None:
             ctx.violation("signature/unexplained-mismatch",
                           f"{fname} differs from the RFC 5849 signature in a way none of the known deviations explains", wit)
@@ -304,3 +479,55 @@ def run_case(case, ctx):
             for s in combo:
                 w = dict(wit, deviations_that_reproduce_tornado=list(combo))
                 ctx.violation(SWITCHES[s], f"signature differs from RFC 5849: {WHAT[s]}", w)
+    return nontrivial
+
+
+# non-string value objects handled by earlier cases of this worker process (only used to *name* a mismatch: the
+# process under test is the worker, so "earlier in the same process" includes earlier cases)
+_PROCESS_SEEN = {}
+
+
+def _collides(v, earlier):
+    for o in earlier:
+        try:
+            if o == v and hash(o) == hash(v) and wire_text(o) != wire_text(v):
+                return True
+        except TypeError:
+            pass
+    return False
+
+
+def run_history(case, ctx):
+    calls = case["history"]
+    ctx.count("history_cases")
+    earlier = []          # value objects handled so far, in handling order
+    seen_calls = []
+    collisions = 0
+    for idx, call in enumerate(calls):
+        ctx.count("history_calls")
+        key = repr((call["consumer"], call["token"], call["method"], call["url"], call["params"]))
+        if key in seen_calls:
+            ctx.count("class_exact_repeat_of_earlier_call")
+        seen_calls.append(key)
+        for _, v in call["params"]:
+            if _collides(v, earlier):
+                collisions += 1
+                ctx.count("class_equal_value_printed_differently_earlier")
+            earlier.append(v)
+        eval_call(call, ctx, earlier[:len(earlier) - len(call["params"])], history=case, index=idx)
+    for v in earlier:
+        if not isinstance(v, str) and len(_PROCESS_SEEN) < 4096:
+            _PROCESS_SEEN.setdefault((type(v).__name__, repr(v)), v)
+    nontrivial = collisions > 0
+    new = ctx.mark(("c48h", repr(calls)), nontrivial)
+    if new and nontrivial and ctx.evaluations % 199 == 7:
+        ctx.sample({"history": [dict(c, params=[(k, repr(v)) for k, v in c["params"]]) for c in calls]})
+
+
+def run_case(case, ctx):
+    if "history" in case:
+        return run_history(case, ctx)
+    nontrivial = eval_call(case, ctx, None)
+    new = ctx.mark(("c48", case["consumer"], case["token"], case["method"], case["url"], case["params"]), nontrivial)
+    if new and nontrivial and ctx.evaluations % 499 == 7:
+        ctx.sample(case)
